@@ -577,6 +577,18 @@ func Build(m *Geom) (g geom.T, err error) {
 				}
 			}
 		default:
+			allFull := len(m.P[0]) > 0 && Stride(m.L) > 0
+			for _, pt := range m.P[0] {
+				if len(pt) == 0 {
+					allFull = false
+				}
+			}
+			if allFull && len(m.P[0])%2 == 0 {
+				// the constructor's default: one point per coordinate, no ends
+				// given (taken when the number of points is even)
+				mp = geom.NewMultiPointFlat(l, flat)
+				break
+			}
 			if ends == nil {
 				ends = []int{}
 			}
